@@ -422,6 +422,10 @@ pub fn replay(ctx: &Ctx, engine: &str, case: &J) -> Result<Option<(String, Strin
     if engine == "long-lines-in-a-child-process" {
         return replay_guarded::<ChildCase>(ctx, case, |c| run_child_case(ctx, c));
     }
+    if engine == "transports-tcp-pipelines-and-segments" {
+        let srv = TServer::start(ctx);
+        return replay_guarded::<PipeCase>(ctx, case, |c| run_pipe_case(&srv, c));
+    }
     if engine.starts_with("transports") {
         let srv = TServer::start(ctx);
         return replay_guarded::<TCase>(ctx, case, |c| run_transport_case(&srv, c));
@@ -575,6 +579,118 @@ pub fn transport_case_strategy() -> impl Strategy<Value = TCase> {
 }
 
 /// runs the transport engine in this worker: fixed family (quick and thorough) + generated cases (thorough)
+
+// ------------------------------------------------------------------------------------------------
+// every command of a TCP connection is answered, however the bytes arrive: many lines in one segment (more than the
+// session's channel holds), one line in two segments
+// ------------------------------------------------------------------------------------------------
+
+#[derive(Clone, Debug, Serialize, Deserialize)]
+pub struct PipeCase {
+    /// number of `set` lines sent in one write
+    pub n: u32,
+    /// the bytes are written in two parts, cut at this per-mille position of the payload, with a pause in between
+    pub split_permille: Option<u32>,
+    /// length of every value
+    pub value_len: u32,
+}
+
+pub fn run_pipe_case(srv: &TServer, case: &PipeCase) -> Outcome {
+    use std::io::{Read, Write};
+    use std::sync::atomic::{AtomicU64, Ordering};
+    static COUNTER: AtomicU64 = AtomicU64::new(0);
+    let tag = COUNTER.fetch_add(1, Ordering::SeqCst);
+    let mut out = Outcome::ok(case.n > 100 || case.split_permille.is_some());
+    out.classes.push(if case.split_permille.is_some() { "tcp-line-in-two-segments" } else { "tcp-pipelined-lines" });
+    let val = |i: u32| format!("v{}x{}", i, "y".repeat(case.value_len as usize));
+    let mut payload = String::from("use-db probe ptok\n");
+    for i in 0..case.n {
+        payload.push_str(&format!("set p{}k{} {}\n", tag, i, val(i)));
+    }
+    payload.push_str(&format!("get p{}k{}\n", tag, case.n - 1));
+    let bytes = payload.as_bytes();
+    let run = || -> Result<Vec<String>, String> {
+        let mut s = std::net::TcpStream::connect(("127.0.0.1", srv.tcp)).map_err(|e| format!("connect: {}", e))?;
+        s.set_read_timeout(Some(std::time::Duration::from_millis(100))).ok();
+        match case.split_permille {
+            Some(pm) => {
+                let cut = ((bytes.len() as u64 * pm as u64) / 1000).clamp(1, bytes.len() as u64 - 1) as usize;
+                s.write_all(&bytes[..cut]).map_err(|e| format!("write: {}", e))?;
+                s.flush().ok();
+                crate::transport::real_sleep(std::time::Duration::from_millis(300));
+                s.write_all(&bytes[cut..]).map_err(|e| format!("write: {}", e))?;
+            }
+            None => s.write_all(bytes).map_err(|e| format!("write: {}", e))?,
+        }
+        // answers come in order: once the sentinel sent AFTER the value line was seen is acknowledged, whatever was going
+        // to be answered before it has been
+        let t0 = std::time::Instant::now();
+        let mut got: Vec<u8> = vec![];
+        let mut buf = [0u8; 8192];
+        let mut sentinel_sent = false;
+        let value_line = format!("value {}", val(case.n - 1));
+        let mut lines_at_sentinel = 0usize;
+        while t0.elapsed() < std::time::Duration::from_secs(30) {
+            match s.read(&mut buf) {
+                Ok(0) => break,
+                Ok(k) => got.extend_from_slice(&buf[..k]),
+                Err(e) if e.kind() == std::io::ErrorKind::WouldBlock || e.kind() == std::io::ErrorKind::TimedOut => {}
+                Err(e) => return Err(format!("read: {}", e)),
+            }
+            let text = String::from_utf8_lossy(&got).to_string();
+            let complete: Vec<&str> = text.split('\n').collect();
+            let nlines = complete.len() - 1;
+            if !sentinel_sent && (text.contains(&value_line) || t0.elapsed() > std::time::Duration::from_secs(5)) {
+                // (without the value line after 5 s the sentinel goes out all the same: the answer is judged missing below)
+                s.write_all(b"keys sentinel-never-there\n").map_err(|e| format!("write: {}", e))?;
+                sentinel_sent = true;
+                lines_at_sentinel = nlines;
+            }
+            if sentinel_sent && text.contains("keys \n") && nlines > lines_at_sentinel {
+                // the sentinel's own answer (`keys ` with an empty list) and its ok
+                if text.trim_end().ends_with("ok") {
+                    break;
+                }
+            }
+        }
+        Ok(String::from_utf8_lossy(&got).split('\n').map(|l| l.trim_end().to_string()).filter(|l| !l.is_empty()).collect())
+    };
+    match run() {
+        Err(e) => {
+            eprintln!("C10 tcp engine: {}", e);
+            out.nontrivial = false;
+        }
+        Ok(lines) => {
+            let oks = lines.iter().filter(|l| l.as_str() == "ok").count();
+            let errors: Vec<&String> = lines.iter().filter(|l| l.starts_with("error")).collect();
+            let has_value = lines.iter().any(|l| *l == format!("value {}", val(case.n - 1)));
+            // greeting + use-db + n sets + get + sentinel
+            let want_oks = case.n as usize + 4;
+            let stored = srv.node.dump_db("probe").map(|m| (0..case.n).filter(|i| m.get(&format!("p{}k{}", tag, i)).map(|v| v.0 == val(*i)).unwrap_or(false)).count()).unwrap_or(0);
+            let how = if case.split_permille.is_some() { "one-line-in-two-segments" } else { "lines-in-one-segment" };
+            if !errors.is_empty() || stored != case.n as usize {
+                out.fail = Some((format!("C10|transport|tcp|command-not-executed-as-sent|{}", how), format!("{} set lines + 1 get over TCP ({}): {} of the keys hold their value afterwards; error answers {:?}", case.n, how, stored, errors.iter().take(3).collect::<Vec<_>>())));
+            } else if oks < want_oks || !has_value {
+                out.fail = Some((format!("C10|transport|tcp|answers-missing|{}", how), format!("{} set lines + 1 get over TCP ({}): all executed, but {} `ok` lines arrived where {} commands were sent (greeting included){}", case.n, how, oks, want_oks, if has_value { "" } else { " and the value of the get never arrived" })));
+            }
+        }
+    }
+    out
+}
+
+fn pipe_family() -> Vec<PipeCase> {
+    let mut v = vec![];
+    for n in [1u32, 20, 99, 101, 150, 400] {
+        v.push(PipeCase { n, split_permille: None, value_len: 3 });
+    }
+    for (n, len) in [(1u32, 3u32), (3, 3), (1, 3000), (2, 70_000)] {
+        for pm in [300u32, 500, 900, 990] {
+            v.push(PipeCase { n, split_permille: Some(pm), value_len: len });
+        }
+    }
+    v
+}
+
 pub fn run_transports(ctx: &Ctx, rep: &mut Report) {
     let srv = std::cell::RefCell::new(TServer::start(ctx));
     let eval = |c: &TCase| {
@@ -587,6 +703,9 @@ pub fn run_transports(ctx: &Ctx, rep: &mut Report) {
         o
     };
     enumerate(ctx, rep, "transports-fixed", fixed_transport_cases().into_iter(), &eval);
+    if rep.failures.is_empty() {
+        enumerate(ctx, rep, "transports-tcp-pipelines-and-segments", pipe_family().into_iter(), |c| run_pipe_case(&srv.borrow(), c));
+    }
     if !ctx.quick() && rep.failures.is_empty() {
         explore(ctx, rep, "transports-generated", 6000, transport_case_strategy(), &eval);
     }
